@@ -461,3 +461,24 @@ def live_twin(buf: bytes) -> bool:
     sys.setrecursionlimit(max(sys.getrecursionlimit(), 40000))
     memo = {}
     return all(hops_twin(buf, off, memo) <= 127 for off in range(len(buf)))
+
+
+def ref_reencoded_size(buf: bytes):
+    """length of the uncompressed re-encoding of a message the specification reads (header + questions + records with
+    every owner name and every name in name-bearing RDATA written out in full), None if the specification does not read it"""
+    try:
+        r = ref_decode(buf)
+    except RefError:
+        return None
+    size = 12
+    _hdr, qs, *secs = r.split(" ")
+    hl = lambda h: 0 if h == "-" else len(h) // 2
+    if qs != "-":
+        for q in qs.split(";"):
+            size += hl(q.split(":")[0]) + 4
+    for sec in secs:
+        if sec == "-": continue
+        for rr in sec.split(";"):
+            f = rr.split(":")
+            size += hl(f[0]) + 10 + hl(f[4])
+    return size
